@@ -59,8 +59,27 @@ static void vf_body(void);
 #define yyecho() vf_body()
 #endif
 
+#ifdef VF_FAKE_FILES
+/* buffer-history harness: sources are identified by fake FILE pointers that are never dereferenced;
+ * the only libc calls flex makes on them (isatty(fileno(f)) when a buffer is initialised) are answered here */
+#include <unistd.h>
+#define fileno(f) 0
+#define isatty(fd) 0
+static int vf_read_from(FILE *f, char *buf, size_t max_size);
+static void vf_eof_body(int id);
+static int vf_eof_choice(void);
+static void vf_eof_did_pop(int has_current);
+static int vf_eof_new_yyin(void);
+static int vf_action_push(void);
+static int vf_action_src(void);
+static void vf_action_pushed(void);
+static char vf_fake_file[];
+#endif
+
 #if defined(VF_API_NR) || defined(VF_API_R) || defined(VF_API_CXX)
-#ifndef VF_DEFAULT_INPUT
+#if defined(VF_FAKE_FILES)
+#define YY_INPUT(buf, result, max_size) do { (result) = vf_read_from(yyin, (buf), (size_t)(max_size)); } while (0)
+#elif !defined(VF_DEFAULT_INPUT)
 #define YY_INPUT(buf, result, max_size) do { (result) = vf_read((buf), (size_t)(max_size)); } while (0)
 #endif
 #define YY_FATAL_ERROR(msg) vf_fatal(msg)
